@@ -156,6 +156,13 @@ def gen_plan(seed, tier):
       steps.append({"op": "advance", "dt": r.pick([0.5, 2, 5, 11])})
     if r.chance(0.5):
       steps.append({"op": "advance", "dt": r.pick([0.2, 1, 3, 6])})
+  rsw = Rng(mix(seed, "swap"))
+  if not dense and rsw.chance(0.3):
+    # (late in the history, so that the tree has settled on what to block)
+    steps.append({"op": "advance", "dt": 11})
+    for _ in range(rsw.randint(1, 3)):
+      steps.append({"op": "port", "sw": rsw.pick(dpids),
+                    "i": rsw.randrange(8), "del": False, "swap": True})
   rh = Rng(mix(seed, "hotplug"))
   if rh.chance(0.25):
     cfg["hotplug"] = rh.pick(["all", "all", "most"])
@@ -400,7 +407,18 @@ def _drive(sim, plan, known, hit):
       if cands:
         pno = cands[st["i"] % len(cands)]
         sw = net.switches[d].sw
-        if st["del"] and present[(d, pno)]:
+        if st.get("swap") and present[(d, pno)]:
+          # the port is replaced in place (a module swapped, a driver
+          # restarted): the switch announces the number anew -- OFPPR_ADD,
+          # no DELETE before it -- with a new address and default config
+          np_ = sw.generate_port(pno, name="p%d" % pno,
+                                 ethaddr="02:aa:%02x:%02x:%02x:%02x"
+                                 % ((d >> 8) & 0xff, d & 0xff,
+                                    (pno >> 8) & 0xff, pno & 0xff))
+          sw.ports[pno] = np_
+          sw.send_port_status(np_, 0)       # OFPPR_ADD
+          sim.probes["port_swapped_in_place"] += 1
+        elif st["del"] and present[(d, pno)]:
           sw.delete_port(pno)
           present[(d, pno)] = False
           sim.probes["port_deleted"] += 1
